@@ -154,4 +154,46 @@ func main() {
 		}
 		emit("quadtree:add*,InBound", []interface{}{ps, geom(b)}, out)
 	}
+	// quadtree: add k points, remove one (or none), nearest / k-nearest from a point
+	for i := 0; i < n/2; i++ {
+		qt := quadtree.New(orb.Bound{Min: orb.Point{-20, -20}, Max: orb.Point{30, 30}})
+		var ps []interface{}
+		var pts []orb.Point
+		k := 1 + r.Intn(7)
+		for j := 0; j < k; j++ {
+			p := rpt()
+			qt.Add(p)
+			ps = append(ps, geom(p))
+			pts = append(pts, p)
+		}
+		rm := r.Intn(k+1) - 1
+		if rm >= 0 {
+			qt.Remove(pts[rm], nil)
+		}
+		q := rpt()
+		kk := 1 + r.Intn(3)
+		var out []interface{}
+		for _, p := range qt.KNearest(nil, q, kk) {
+			out = append(out, geom(p.Point()))
+		}
+		if out == nil {
+			out = []interface{}{}
+		}
+		emit("quadtree:add*,remove,KNearest", []interface{}{ps, rm, geom(q), kk}, out)
+		if f := qt.Find(q); f != nil {
+			emit("quadtree:add*,remove,Find", []interface{}{ps, rm, geom(q), 0}, geom(f.Point()))
+		} else {
+			emit("quadtree:add*,remove,Find", []interface{}{ps, rm, geom(q), 0}, nil)
+		}
+	}
+	for i := 0; i < n; i++ {
+		rg := rring(3+r.Intn(4), r.Intn(2) == 0)
+		emit("orb.(Ring).Orientation", []interface{}{geom(rg)}, int(rg.Orientation()))
+		a, b, q := rpt(), rpt(), rpt()
+		if r.Intn(4) == 0 {
+			b = a
+		}
+		emit("planar.DistanceFromSegmentSquared", []interface{}{geom(a), geom(b), geom(q)}, planar.DistanceFromSegmentSquared(a, b, q))
+		emit("planar.Distance", []interface{}{geom(a), geom(q)}, planar.Distance(a, q))
+	}
 }
